@@ -207,7 +207,7 @@ func main() {
 		r.Assume("Add/Delete/HasValue/Search/DeleteKey with an empty key or value must return an error and change nothing (documented ErrEmptyKey/ErrEmptyValue)")
 		sp := stringPool(eng.Pick(r, 2, 3))
 		r.Set("pair_pool_strings", len(sp))
-		r.Set("pair_alphabet_hex", fmt.Sprintf("%x", alphabet))
+		r.Set("pair_alphabet_hex", fmt.Sprintf("%x", eng.Pick(r, alphabet, alphabet3)))
 		r.Set("pair_max_len", eng.Pick(r, 2, 3))
 		r.Set("seq_configs", seqConfigs(r))
 		pl := map[string]any{}
